@@ -167,3 +167,49 @@ package webrtc
 //@ loop 0 invariant forall k uint16 :: indom(r.dataChannelIDsUsed, k) == old(indom(r.dataChannelIDsUsed, k))
 //@ loop 0 invariant *idOut == old(*idOut) && r.dataChannelIDsUsed == old(r.dataChannelIDsUsed)
 //@ loop 0 decreases int(maxVal) + 2 - int(id)
+
+// ---------------------------------------------------------------- C39
+//@ field PeerConnection.configuration props C39 writers (*PeerConnection).SetConfiguration, (*PeerConnection).initConfiguration, (*API).NewPeerConnection
+//@ field PeerConnection.iceGatherer props C39 writers (*API).NewPeerConnection, (*PeerConnection).createICEGatherer
+
+// Assumed contracts on dependencies / out-of-scope helpers: they do not write this package's memory.
+//@ func (logging.LeveledLogger).Warn
+//@ trusted
+//@ modifies nothing
+//@ func (logging.LeveledLogger).Debugf
+//@ trusted
+//@ modifies nothing
+//@ func (Certificate).Equals
+//@ trusted
+//@ modifies nothing
+
+// SetConfiguration: immutable settings never change; a rejected call leaves the
+// configuration as it was (certificates: the same number of certificates, the
+// stored list being either the previous one or the caller's list, each element of
+// which was compared Equal to the previous one before being stored).
+//@ func (*PeerConnection).SetConfiguration
+//@ props C39 C21
+//@ requires pcValid(pc)
+//@ observe old(pc.isClosed.Load())
+//@ observe old(pc.configuration.BundlePolicy)
+//@ observe configuration.BundlePolicy
+//@ ensures old(pc.isClosed.Load()) ==> istype(err, *rtcerr.InvalidStateError)
+//@ ensures pc.configuration.BundlePolicy == old(pc.configuration.BundlePolicy) && pc.configuration.RTCPMuxPolicy == old(pc.configuration.RTCPMuxPolicy)
+//@ ensures pc.configuration.PeerIdentity == old(pc.configuration.PeerIdentity) && pc.configuration.ICECandidatePoolSize == old(pc.configuration.ICECandidatePoolSize)
+//@ ensures pc.configuration.SDPSemantics == old(pc.configuration.SDPSemantics)
+//@ ensures len(pc.configuration.Certificates) == old(len(pc.configuration.Certificates))
+//@ ensures sameptr(pc.configuration.Certificates, old(pc.configuration.Certificates)) || (sameptr(pc.configuration.Certificates, configuration.Certificates) && len(configuration.Certificates) > 0)
+//@ ensures err != nil ==> pc.configuration.ICETransportPolicy == old(pc.configuration.ICETransportPolicy) && pc.configuration.AlwaysNegotiateDataChannels == old(pc.configuration.AlwaysNegotiateDataChannels)
+//@ ensures err != nil ==> sameptr(pc.configuration.ICEServers, old(pc.configuration.ICEServers)) && len(pc.configuration.ICEServers) == old(len(pc.configuration.ICEServers))
+//@ ensures !old(pc.isClosed.Load()) && configuration.BundlePolicy != BundlePolicyUnknown && configuration.BundlePolicy != old(pc.configuration.BundlePolicy) ==> istype(err, *rtcerr.InvalidModificationError)
+//@ ensures !old(pc.isClosed.Load()) && configuration.RTCPMuxPolicy != RTCPMuxPolicyUnknown && configuration.RTCPMuxPolicy != old(pc.configuration.RTCPMuxPolicy) ==> istype(err, *rtcerr.InvalidModificationError)
+//@ ensures !old(pc.isClosed.Load()) && configuration.PeerIdentity != "" && configuration.PeerIdentity != old(pc.configuration.PeerIdentity) ==> istype(err, *rtcerr.InvalidModificationError)
+//@ ensures !old(pc.isClosed.Load()) && len(configuration.Certificates) > 0 && len(configuration.Certificates) != old(len(pc.configuration.Certificates)) ==> istype(err, *rtcerr.InvalidModificationError)
+//@ ensures err == nil ==> pc.configuration.ICETransportPolicy == configuration.ICETransportPolicy && sameptr(pc.configuration.ICEServers, configuration.ICEServers)
+
+//@ func (*PeerConnection).GetConfiguration
+//@ props C39
+//@ requires pc != nil
+//@ ensures result.BundlePolicy == pc.configuration.BundlePolicy && result.RTCPMuxPolicy == pc.configuration.RTCPMuxPolicy && result.PeerIdentity == pc.configuration.PeerIdentity
+//@ ensures result.ICECandidatePoolSize == pc.configuration.ICECandidatePoolSize && result.ICETransportPolicy == pc.configuration.ICETransportPolicy && sameptr(result.Certificates, pc.configuration.Certificates) && sameptr(result.ICEServers, pc.configuration.ICEServers)
+//@ modifies nothing
